@@ -1,6 +1,7 @@
 //! Model-checking harness for kyren/gc-arena: explicit-state exploration of the real `Arena`.
 //! See /verif/DESIGN.md.
 
+pub mod crash;
 pub mod engine;
 pub mod json;
 pub mod ops;
